@@ -142,6 +142,13 @@ func runMutant(p rules.Property, prop, repo, name string) (code int) {
 		return 3
 	}
 	mutated := bytes.Replace(src, []byte(m.Old), []byte(m.New), 1)
+	if ex, ok := rules.MutantExtra[prop+"/"+name]; ok {
+		if !bytes.Contains(mutated, []byte(ex[0])) {
+			fmt.Printf("MUTANT-SKIPPED second anchor not present in %s\n", m.File)
+			return 3
+		}
+		mutated = bytes.Replace(mutated, []byte(ex[0]), []byte(ex[1]), 1)
+	}
 	ctx, err := core.Load(repo, map[string][]byte{path: mutated})
 	if err != nil {
 		fmt.Printf("MUTANT-NOCOMPILE %v\n", err)
